@@ -237,6 +237,40 @@ def pdu_class(t):
             4: pdu.PDataTfPDU, 5: pdu.AReleaseRqPDU, 6: pdu.AReleaseRpPDU, 7: pdu.AAbortPDU}[t]
 
 
+def scramble(o, depth=0):
+    """Overwrite every public piece of state of a library PDU object (and of its items, sub-items, PDVs) in
+    place.  What the caller holds is the caller's: a later decode() of the same bytes must not notice."""
+    if depth > 6 or o is None:
+        return
+    try:
+        state = vars(o)
+    except TypeError:
+        return
+    for name, v in list(state.items()):
+        if isinstance(v, bool):
+            new = not v
+        elif isinstance(v, int):
+            new = (v + 1) & 0xFF if v < 256 else v // 2 + 7
+        elif isinstance(v, str):
+            new = v + 'Z'
+        elif isinstance(v, (bytes, bytearray)):
+            new = b'\x5A' + bytes(v)
+        elif isinstance(v, (list, tuple)):
+            for x in v:
+                if hasattr(x, '__dict__'):
+                    scramble(x, depth + 1)
+            continue
+        elif hasattr(v, '__dict__') and type(v).__module__.startswith('pynetdicom2'):
+            scramble(v, depth + 1)
+            continue
+        else:
+            continue
+        try:
+            setattr(o, name, new)
+        except Exception:
+            pass
+
+
 def extract_sub(o):
     from pynetdicom2 import userdataitems as u
     if isinstance(o, u.MaximumLengthSubItem):
